@@ -34,8 +34,8 @@ ASSUMPTIONS = ["the plan is taken from expand_run_space (C08 is not claimed)", "
                "volatile fields and the run-space FK fields (launch id, attempt, index, context)"]
 REQUIRED_PROBES = ["other_process_other_hashseed", "failing_run", "source_file", "idempotency_key", "explicit_launch_id", "attempt_gt_1", "multi_run_launch", "directory_mode"]
 CONFIG = {
-    "quick": {"runs": 300, "budget_s": 170, "timeout_s": 180},
-    "thorough": {"runs": 15000, "budget_s": 1600, "timeout_s": 180},
+    "quick": {"runs": 800, "budget_s": 240, "timeout_s": 180},
+    "thorough": {"runs": 30000, "budget_s": 1600, "timeout_s": 180},
     "shrink_s": 60.0,
 }
 FK_FIELDS = ("run_space_launch_id", "run_space_attempt", "run_space_index", "run_space_context")
@@ -209,7 +209,7 @@ def _child_main() -> int:
 def _other_process(sc: dict, seed: int, hashseed: int) -> dict:
     env = dict(os.environ, PYTHONHASHSEED=str(hashseed))
     p = subprocess.run([sys.executable, "-m", "svsim.props.c09", "child"], input=json.dumps({"sc": sc, "seed": seed}), env=env,
-                       capture_output=True, text=True, timeout=200)
+                       capture_output=True, text=True)
     for line in p.stdout.splitlines():
         if line.startswith("RESULT "):
             return json.loads(line[7:])
